@@ -25,23 +25,47 @@ type epAnchors struct {
 }
 
 func getEP(c *core.Ctx, rule string) *epAnchors {
-	a := &epAnchors{
-		handlers:      c.Field("bus/net", "endPoint", "handlers"),
-		stream:        c.Field("bus/net", "endPoint", "stream"),
-		mutex:         c.Field("bus/net", "endPoint", "handlersMutex"),
-		hFilter:       c.Field("bus/net", "Handler", "filter"),
-		hConsumer:     c.Field("bus/net", "Handler", "consumer"),
-		hCloser:       c.Field("bus/net", "Handler", "closer"),
-		hCloseWith:    c.Func("bus/net", "Handler", "closeWith"),
-		epCloseWith:   c.Func("bus/net", "endPoint", "closeWith"),
-		removeHandler: c.Func("bus/net", "endPoint", "RemoveHandler"),
-		makeHandler:   c.Func("bus/net", "endPoint", "MakeHandler"),
-		addHandler:    c.Func("bus/net", "endPoint", "AddHandler"),
-		dispatch:      c.Func("bus/net", "endPoint", "dispatch"),
-		process:       c.Func("bus/net", "endPoint", "process"),
-		send:          c.Func("bus/net", "endPoint", "Send"),
-		newHandler:    c.Func("bus/net", "", "NewHandler"),
-		class:         core.LockClass{Owner: "bus/net.endPoint", Field: "handlersMutex"},
+	ep := strct(c, "bus/net", "endPoint")
+	hd := strct(c, "bus/net", "Handler")
+	a := &epAnchors{class: core.LockClass{Owner: "bus/net.endPoint", Field: "handlersMutex"}}
+	if ep != nil && hd != nil {
+		a.handlers = fld(c, "bus/net", "endPoint", "handlers")
+		a.stream = fld(c, "bus/net", "endPoint", "stream")
+		a.mutex = fld(c, "bus/net", "endPoint", "handlersMutex")
+		a.hFilter = fld(c, "bus/net", "Handler", "filter")
+		a.hConsumer = fld(c, "bus/net", "Handler", "consumer")
+		a.hCloser = fld(c, "bus/net", "Handler", "closer")
+		if a.mutex != nil {
+			a.class = classOf(ep, a.mutex)
+		}
+		// unexported methods: by name, else by role
+		msgRead := c.Func("bus/net", "Message", "Read")
+		a.hCloseWith = c.MethodLike(hd, "closeWith", func(fn *ssa.Function) bool {
+			for _, b := range fn.Blocks {
+				for _, in := range b.Instrs {
+					if ch := isCloseBuiltin(in); ch != nil && isFieldOf(ch, a.hConsumer) {
+						return true
+					}
+				}
+			}
+			return false
+		})
+		a.epCloseWith = c.MethodLike(ep, "closeWith", methodsCalling(func(call ssa.CallInstruction) bool {
+			cc := call.Common()
+			return cc.IsInvoke() && cc.Method.Name() == "Close" && isFieldOf(cc.Value, a.stream) && call.Parent().Name() != "Close"
+		}))
+		a.dispatch = c.MethodLike(ep, "dispatch", methodsCalling(func(call ssa.CallInstruction) bool {
+			cc := call.Common()
+			return !cc.IsInvoke() && cc.StaticCallee() == nil && isFieldOf(cc.Value, a.hFilter)
+		}))
+		a.process = c.MethodLike(ep, "process", methodsCalling(func(call ssa.CallInstruction) bool {
+			return msgRead != nil && core.IsCallTo(call, msgRead)
+		}))
+		a.removeHandler = c.MethodLike(ep, "RemoveHandler", nil)
+		a.makeHandler = c.MethodLike(ep, "MakeHandler", nil)
+		a.addHandler = c.MethodLike(ep, "AddHandler", nil)
+		a.send = c.MethodLike(ep, "Send", nil)
+		a.newHandler = c.Func("bus/net", "", "NewHandler")
 	}
 	missing := []string{}
 	chk := func(ok bool, n string) {
